@@ -11,6 +11,7 @@ import Astm.Generated.Schemas
 import Astm.Model.Heap
 import Astm.Model.Select
 import Astm.Generated.Regex
+import Astm.Model.Wrapper
 
 open Astm Astm.Wire
 
@@ -177,6 +178,13 @@ def handle (toks : List String) : String :=
       "ok " ++ " ; ".intercalate (outs.map showTOut) ++ " | " ++ ",".intercalate live
     | _, _ => "bad-arg"
   | ["default-timeout"] => s!"ok {TIMEOUT}"
+  | "tojson" :: now :: hs => match parseCps (if now == "-" then "" else now), hs.mapM ofHex with
+    | some nowS, some ms => match Astm.Wrapper.toJson nowS ms with
+      | .ok doc =>
+        "ok A:" ++ toHex doc.astm ++ " L:" ++ toHex doc.lis2a ++
+          String.join (doc.buckets.map fun b => " ## " ++ b.1 ++ " => " ++ " ~~ ".intercalate (b.2.map showDict))
+      | .error e => errStr e
+    | _, _ => "bad-arg"
   | ["select", h] => match ofHex h with
     | some b => "ok " ++ ((selectModule Astm.Gen.headerRx b).getD "generic")
     | none => "bad-arg"
